@@ -24,6 +24,9 @@ CONSTANTS
  CowIndex = TRUE
  InvAfterDel = TRUE
  NormKey = TRUE
+ TrustApplied = FALSE
+ PlainIds = {"n1", "n2"}
+ FeatFromPut = FALSE
  LockStyle = "global"
 INIT GInit
 NEXT GNext
